@@ -488,7 +488,9 @@ func (s *state) visitCall(node *ast.CallNode) {
 				dataExpr += param.Key + ": " + s.block(param.Value)
 			case *ast.CallParamContentNode:
 				var oldBufferName = s.bufferName
-				s.bufferName = s.scope.makevar("param")
+				// The buffer of a content parameter is a fresh JS name only: it must
+				// not become what the Soy variable $param refers to.
+				s.bufferName = s.scope.genname("param")
 				s.jsln("var ", s.bufferName, " = '';")
 				s.walk(param.Content)
 				dataExpr += param.Key + ": " + s.bufferName
